@@ -8,6 +8,7 @@ from .. import lib, ref
 from ..ref import Graph
 
 LEVEL = "exploration"
+TECHNIQUE = 'runtime monitoring: per-pixel reference renderer judges as_pixels/as_ascii; from_pixels/from_ascii round trips; exhaustive over all structures on grids up to 3x3, sampled to 12x12, all flag combinations, repeated renderings of one object'
 RULE = ("as_pixels / as_ascii of all three maze kinds compared pixel by pixel (character by character) with an oracle written from "
         "the statement, for every accepted (show_endpoints, show_solution) combination (the rejected one must raise ValueError); "
         "from_pixels / from_ascii of the full rendering must return the same kind, connection structure, start, end and solution "
